@@ -100,3 +100,12 @@ def ellipsis_mechanism(o1: str, o2: str) -> str | None:
 
 def ellipsis_conversions_explained_by_line_starts(o1: str, o2: str) -> bool:
     return ellipsis_mechanism(o1, o2) == "ellipsis-at-line-start"
+
+
+_PROTECTIVE_ESC = re.compile(r"\\(?=[-+*>#=|~`_])|(?<![\w\\])(\d+)\\(?=[.)])")
+
+
+def drop_protective_escapes(t: str) -> str:
+    """Remove the backslashes that protect a marker-like word ('\\-', '\\===', '12\\.'): a pass that changes line lengths (a
+    converted ellipsis, converted quotes) re-wraps, and the re-wrap adds or leaves behind such escapes (KF-C03-sticky-escape)."""
+    return _PROTECTIVE_ESC.sub(lambda m: m.group(1) or "", t)
